@@ -210,6 +210,8 @@ def path_flags(c, job):
 
 BAD_SIGS = [
     ("def f(x): pass", "first-not-self"), ("def f(self, *args): pass", "varargs"),
+    ("def f(*self): pass", "varargs-named-self"), ("def f(**self): pass", "kwargs-named-self"), ("def f(*, self): pass", "kwonly-named-self"),
+    ("def f(self, tm, *, state_tm): pass", "kwonly-2"), ("def f(self, /, *tm): pass", "varargs-named-tm"), ("def f(self, **initial_call): pass", "kwargs-named-initial_call"),
     ("def f(self, **kw): pass", "kwargs"), ("def f(self, *, tm): pass", "kwonly"), ("def f(self, foo): pass", "bad-name"),
     ("def f(self, tm, bar): pass", "bad-name-2"), ("def f(self, speed=1.0): pass", "bad-name-default"),
     ("def f(self, tm, foo=None): pass", "bad-name-default-2"), ("def f(self, tm=0, state_tm=0, x=0): pass", "bad-name-default-3"), ("def f(self, state_tm, *a): pass", "varargs-2"), ("def f(tm, self): pass", "self-not-first"),
@@ -281,6 +283,24 @@ def path_defs(c, job):
                 ok = isinstance(e, smm.InvalidStateName) or isinstance(e.__cause__, smm.InvalidStateName)
             c.reach("alias")
             c.prove("C12.def alias-rejected", ok, info=dict(decorator=dn))
+            # alias names that merely contain / start with / end with the state's own name, both spellings of the
+            # class body (the alias bound before or after the proper name)
+            for alias in ("auto_st", "st_now", "xsty", "_st", "st_", "St", "s", "t"):
+                for order in (("st", alias), (alias, "st")):
+                    try:
+                        same = mk()
+                        type("A2", (smm.StateMachine,), {order[0]: same, order[1]: same})
+                        ok = False
+                    except Exception as e:
+                        ok = isinstance(e, smm.InvalidStateName) or isinstance(e.__cause__, smm.InvalidStateName)
+                    c.prove("C12.def alias-rejected", ok, info=dict(decorator=dn, alias=alias, order=order))
+                try:
+                    base = type("AB2", (smm.StateMachine,), {"st": mk()})
+                    type("ASub2", (base,), {alias: base.st})
+                    ok = False
+                except Exception as e:
+                    ok = isinstance(e, smm.InvalidStateName) or isinstance(e.__cause__, smm.InvalidStateName)
+                c.prove("C12.def alias-rejected", ok, info=dict(decorator=dn, alias=alias, where="subclass"))
             # the alias made in a subclass of the class that defined the state
             try:
                 base = type("AB", (smm.StateMachine,), {"st": mk()})
